@@ -481,6 +481,13 @@ func c08Semaphore(c *Ctx) {
 
 // c08Outcomes: classify every return after the take.
 func c08Outcomes(c *Ctx, handler *ssa.Function, take CallSite) {
+	failureCalls := c08OneOutcome(c, "C08.L4-one-outcome", handler, take)
+	c08FailurePath(c, handler, failureCalls)
+}
+
+// c08OneOutcome: every return of the announce handler after the take is preceded by exactly one outcome (shared by
+// C08 — the announcement is acted on — and C14 — every finished sync, failed ones included, is notified once).
+func c08OneOutcome(c *Ctx, rule string, handler *ssa.Function, take CallSite) []ssa.Instruction {
 	var successCalls, failureCalls []ssa.Instruction
 	instrs(handler, func(in ssa.Instruction) {
 		// outcome performed inline in the handler
@@ -541,13 +548,17 @@ func c08Outcomes(c *Ctx, handler *ssa.Function, take CallSite) {
 		}
 		switch len(outcomes) {
 		case 1:
-			c.OK("C08.L4-one-outcome", key+" ("+outcomes[0]+")", ret.Pos(), "this exit of the announce handler is preceded on every path by exactly one outcome: "+outcomes[0])
+			c.OK(rule, key+" ("+outcomes[0]+")", ret.Pos(), "this exit of the announce handler is preceded on every path by exactly one outcome: "+outcomes[0])
 		case 0:
-			c.Bad("C08.L4-one-outcome", key+" (silent)", ret.Pos(), "announce handler returns after taking the announcement without success notification, failure notification or 'already synced': the announcement is lost and its CID stays in the duplicate cache")
+			c.Bad(rule, key+" (silent)", ret.Pos(), "announce handler returns after taking the announcement without success notification, failure notification or 'already synced': the announcement is lost and its CID stays in the duplicate cache")
 		default:
-			c.Bad("C08.L4-one-outcome", key+" (multiple)", ret.Pos(), "more than one outcome on a path: "+strings.Join(outcomes, ", "))
+			c.Bad(rule, key+" (multiple)", ret.Pos(), "more than one outcome on a path: "+strings.Join(outcomes, ", "))
 		}
 	}
+	return failureCalls
+}
+
+func c08FailurePath(c *Ctx, handler *ssa.Function, failureCalls []ssa.Instruction) {
 	// the failure path un-caches the CID and sends exactly one error event
 	for _, f := range failureCalls {
 		fci, isCall := f.(ssa.CallInstruction)
@@ -561,7 +572,24 @@ func c08Outcomes(c *Ctx, handler *ssa.Function, take CallSite) {
 			"failure path un-caches the CID once and sends one error event", "failure path does not (un-cache once and send exactly one event)")
 	}
 	uncacheUnconditional(c, "C08.L4-failure-path")
-	c.Floor("C08.L4-failure-path", 2)
+	// …and only there: a head that was synced stays in the duplicate filter — un-cached on success, a late copy of an
+	// older announcement is accepted again, re-synced from that older head, and the latest-synced value moves back
+	for _, f := range c.Funcs(dagsyncPkg) {
+		for _, cs := range c.Calls(f.SSA, Call("announce.Receiver).UncacheCid")) {
+			top := topFunc(cs.Fn)
+			k := c08Classify(c, top)
+			onFail := k == "failure"
+			if k == "unified" {
+				for _, p := range top.Params {
+					if isErrorType(p.Type()) {
+						_, onFail = c.Guarded(cs.In, EqNil(Op("param", p.Name())), false)
+					}
+				}
+			}
+			c.Check(onFail, "C08.L4-failure-path", c.short(top.String())+" › un-caches only a failed announcement", cs.In.Pos(), "the announcement's CID is taken out of the duplicate filter on the failure path only", "the CID of a head is taken out of the duplicate filter outside the failure path: a late copy of an already synced (older) announcement is handled again and the latest-synced value regresses")
+		}
+	}
+	c.Floor("C08.L4-failure-path", 3)
 }
 
 // c08Classify classifies a callee as the success or failure notifier by what it does: "success" records the
